@@ -795,3 +795,21 @@ func (s *Srv) AuthorizeFault(ea glow.EquipmentAuthorization) string {
 	s.T.Line("srv.noeffect what=authorize-with-unwritable-log a=%s => %s%s", hex.EncodeToString(ea.Serialize()), obs, s.after())
 	return obs
 }
+
+// DgramQuick is Dgram without the per-operation state hash (for long runs of reports of one known
+// device; the state is compared once afterwards).
+func (s *Srv) DgramQuick(d []byte, key glow.PublicKey) {
+	now := glow.CurrentTimeslot()
+	if len(d) >= 80 {
+		r, _ := glow.DeserializeReport(d[:80])
+		s.oracle(key, r.SigningBytes(), r.Signature)
+	}
+	before := fileLen(s.E.Dir + "/equipment-reports.dat")
+	s.E.S.VerifInject(d)
+	obs := "dropped"
+	if fileLen(s.E.Dir+"/equipment-reports.dat") != before {
+		obs = "stored"
+	}
+	s.T.Count("dgram:" + obs)
+	s.T.Line("srv.dgram now=%d d=%s => %s", now, hx(d), obs)
+}
